@@ -422,6 +422,10 @@ class Request(request.Request):
             # the client actually sent.
             host_header = self._asgi_headers[b'host'].decode('latin1')
             host, __ = parse_host(host_header)
+        except ValueError:
+            raise errors.HTTPInvalidHeader(
+                'The value must be formatted as host[:port].', 'Host'
+            )
         except KeyError:
             host, __ = self._asgi_server
 
@@ -508,7 +512,11 @@ class Request(request.Request):
                 self._cached_access_route = []
                 for hop in self.forwarded or ():
                     if hop.src is not None:
-                        host, __ = parse_host(hop.src)
+                        try:
+                            host, __ = parse_host(hop.src)
+                        except ValueError:
+                            # NOTE: Malformed values are returned as-is.
+                            host = hop.src
                         self._cached_access_route.append(host)
             elif b'x-forwarded-for' in headers:
                 addresses = headers[b'x-forwarded-for'].decode('latin1').split(',')
@@ -541,6 +549,10 @@ class Request(request.Request):
             host_header = self._asgi_headers[b'host'].decode('latin1')
             default_port = 443 if self._secure_scheme else 80
             __, port = parse_host(host_header, default_port=default_port)
+        except ValueError:
+            raise errors.HTTPInvalidHeader(
+                'The value must be formatted as host[:port].', 'Host'
+            )
         except KeyError:
             __, port = self._asgi_server
 
